@@ -523,6 +523,13 @@ def _e2e_fields(r):
         tags = {k2: v for k2, v in tags.items() if k2 != 'time'}
     elif k < 0.28 and not args:
         cmd = cmd + r.choice(['\x1f', '\xa0', '\x1c'])
+    elif k < 0.38:
+        # lines longer than 512 bytes (IRCv3 tags and many servers make them legal; str(IrcMsg) never cuts)
+        long = ''.join(r.choice('abcXYZ 09:é中😀') for _ in range(r.randint(300, 1500))).rstrip()
+        if r.random() < 0.5 or not args:
+            args = list(args) + [long + 'x']
+        else:
+            tags = dict(tags); tags['+long'] = long + 'x'
     return pfx, cmd, args, tags
 
 def _enc_fields(pfx, cmd, args, tags):
